@@ -43,7 +43,9 @@ int main(void)
 			continue;
 		}
 		errno = 0;
-		if (!strcmp(W[0], "app") && NW == 2)
+		if (!strcmp(W[0], "peek") && NW == 1)
+			show(0, 1);
+		else if (!strcmp(W[0], "app") && NW == 2)
 		{
 			size_t n;
 			unsigned char *d = unhex(W[1], &n);
